@@ -10,6 +10,8 @@ from simkit.kernel import HarnessError, Sim
 
 ID = "C19"
 LEVEL = "exploration"
+TECHNIQUE = ('deterministic simulation, history check by the reference model: row-level audit trace of every emitted stream (redundant entries, missed elisions, missed zero forms, graph starts vs runs, size vs naive baseline)')
+LEVEL_NOTE = ('sampled inputs x presets; audit by the independent decoder')
 RUNS = {"quick": 50000, "thorough": 1000000}
 RULE = ("row-level audit by the reference decoder of every stream the real writers emit in seeded runs (both "
         "integrations, three physical types, tables from 'constant eviction' to 'never evict'): redundant entry rows, "
